@@ -384,6 +384,72 @@ MUTANTS = [
     # ---- C19 ---------------------------------------------------------------------------------------------------------
     ("c19_none_hints_not_loadable", [("src/ahbicht/models/content_evaluation_result.py", "    hints = fields.Dict(keys=fields.String(allow_none=False), values=fields.String(allow_none=True), required=True)", "    hints = fields.Dict(keys=fields.String(allow_none=False), values=fields.String(allow_none=False), required=True)")], ["C19"]),
     ("c19_token_type_lost_for_repeatability", [(TS, """        return Token(data["type"], data["value"])""", """        return Token(data["type"] if data["type"] != "REPEATABILITY" else "CONDITION_KEY", data["value"])""")], ["C19"]),
+    # ---- negative controls: behaviour preserving (w.r.t. the properties) refactorings - every check must stay silent ---------------
+    (
+        "ok_layered_left_recursive_grammar",
+        [(CEP, """?expression: expression "O"i expression -> or_composition
+            | expression "∨" expression -> or_composition
+            | expression "X"i expression -> xor_composition
+            | expression "⊻" expression -> xor_composition
+            | expression "U"i expression -> and_composition
+            | expression "∧" expression -> and_composition
+            | expression expression -> then_also_composition
+            | brackets
+            | package
+            | condition
+            | time_condition
+""", """?expression: expression "O"i xor_level -> or_composition
+            | expression "∨" xor_level -> or_composition
+            | xor_level
+?xor_level: xor_level "X"i and_level -> xor_composition
+            | xor_level "⊻" and_level -> xor_composition
+            | and_level
+?and_level: and_level "U"i then_level -> and_composition
+            | and_level "∧" then_level -> and_composition
+            | then_level
+?then_level: then_level atom -> then_also_composition
+            | atom
+?atom: brackets
+            | package
+            | condition
+            | time_condition
+""")],
+        ["C01", "C02", "C04", "C05", "C06", "C07", "C08", "C09", "C10", "C11", "C12", "C18", "C19"],
+    ),
+    (
+        "ok_sequential_awaits_in_validate_segment",
+        [(VAL, """        validation_results_in_context_data_elements = await asyncio.gather(*tasks)
+""", """        validation_results_in_context_data_elements = [await asyncio.ensure_future(task) for task in tasks]
+""")],
+        ["C13", "C14", "C15", "C16", "C17"],
+    ),
+    (
+        "ok_gather_if_necessary_sequential",
+        [(UTIL, """    awaited_results = await asyncio.gather(*[x for x in results_and_awaitable_results if inspect.isawaitable(x)])
+""", """    awaited_results = [await asyncio.ensure_future(x) for x in results_and_awaitable_results if inspect.isawaitable(x)]
+""")],
+        ["C09", "C12", "C06", "C16"],
+    ),
+    (
+        "ok_tree_copy_via_pickle",
+        [(UTIL, "        return copy.deepcopy(tree_result)", "        import pickle\n\n        return pickle.loads(pickle.dumps(tree_result))")],
+        ["C11", "C01", "C10", "C19"],
+    ),
+    (
+        "ok_cache_keyed_on_stripped_string",
+        [(CEP, """    try:
+        parsed_tree = _parser.parse(condition_expression)
+        parsing_logger.debug("Successfully parsed '%s' as condition expression", condition_expression)""", """    try:
+        parsed_tree = _parser.parse(condition_expression.strip(" ") if isinstance(condition_expression, str) else condition_expression)
+        parsing_logger.debug("Successfully parsed '%s' as condition expression", condition_expression)""")],
+        ["C11", "C01", "C02"],
+    ),
+    (
+        "ok_different_error_texts",
+        [(TAG, """            error_message="An empty or None string cannot be parsed as datetime",""", """            error_message="Leere Eingabe: kein Datum","""),
+         (EB, """            self._expression = "Zwei exklusive Formatdefinitionen dürfen nicht gleichzeitig erfüllt sein\"""", """            self._expression = "Beide Formatdefinitionen sind erfüllt, es darf aber nur eine erfüllt sein\"""")],
+        ["C20", "C08", "C07", "C09"],
+    ),
 ]
 
 
